@@ -60,7 +60,9 @@ pub fn pools(features: &Features, own: &str, keys: &[String]) -> (LinkPool, Link
     // inline links: iwe keys them by their raw url (known finding), so outside that finding's
     // domain they are generated only where raw url == key: notes in the root directory, plain spelling
     let mut inline_internal = vec![];
-    if dir.is_empty() {
+    if !features.on("inline_internal_link") {
+        // no internal links in running text at all (only block references and external links)
+    } else if dir.is_empty() {
         for t in &targets {
             if t == own && !features.on("self_link") {
                 continue;
@@ -82,6 +84,10 @@ pub fn pools(features: &Features, own: &str, keys: &[String]) -> (LinkPool, Link
 }
 
 pub fn library(features: &Features, max_notes: usize, max_blocks: usize) -> BoxedStrategy<LibCase> {
+    library_w(features, max_notes, max_blocks, 3)
+}
+
+pub fn library_w(features: &Features, max_notes: usize, max_blocks: usize, block_ref_weight: u32) -> BoxedStrategy<LibCase> {
     let features = features.clone();
     let pool: Vec<String> = KEY_POOL
         .iter()
@@ -100,6 +106,7 @@ pub fn library(features: &Features, max_notes: usize, max_blocks: usize) -> Boxe
                 cfg.max_blocks = max_blocks;
                 cfg.depth = 2;
                 cfg.title_p = 0.75;
+                cfg.block_ref_weight = block_ref_weight;
                 cfg.number_from = (i as u32 + 1) * 1000;
                 docs.push(doc::text(&cfg));
             }
